@@ -8,3 +8,9 @@ let int_of_z (x:z) : int = match x with Z0 -> 0 | Zpos p -> int_of_pos p | Zneg 
 let rec nat_of_int (n:int) : nat = if n <= 0 then O else S (nat_of_int (n-1))
 let rec int_of_nat (n:nat) : int = match n with O -> 0 | S k -> 1 + int_of_nat k
 let split_ws (s:string) : string list = List.filter (fun x -> x <> "") (String.split_on_char ' ' (String.trim s))
+(* the float instance of the abstract scalar record: OCaml's IEEE double operations *)
+let float_ops : float ops =
+  { o0 = 0.0; o1 = 1.0; oadd = ( +. ); osub = ( -. ); omul = ( *. ); odiv = ( /. ); oneg = (fun x -> -. x);
+    oeqb = (fun a b -> a = b); oltb = (fun a b -> a < b); oleb = (fun a b -> a <= b) }
+let fstr (x:float) : string = Printf.sprintf "%.17g" x
+let rec range a b = if a >= b then [] else a :: range (a+1) b
